@@ -216,7 +216,9 @@ def check_C06(tier, seed):
         for s in schemas:
             r = random.Random(seed * 7 + vlib.ALL.index(s))
             sc = [script(sq, "full", False) for sq in singles] + [script(sq, "min", False) for sq in singles]
-            sc += [script(sq, r.choice(["full", "full", "sentinels", "edge"]), r.random() < 0.5) for sq in r.sample(pairs, min(npairs, len(pairs)))]
+            # (on the newest schema of each family many more ordered pairs of the model are executed - all of them in the thorough tier)
+            np_s = (3000 if tier == "quick" else len(pairs)) if s in ("1.18.0o", "2.21.2") else npairs
+            sc += [script(sq, r.choice(["full", "full", "sentinels", "edge"]), r.random() < 0.5) for sq in r.sample(pairs, min(np_s, len(pairs)))]
             ws.append(Workload(s, sc, [], flags={"stale_get": False}, origin=res["instance"], per_shard=500))
         # (R) longer seed-chosen setter sequences over three tracks
         nr = 40 if tier == "quick" else 300
